@@ -52,9 +52,23 @@ def guarded(fn, limit=20.0, timeout_is_outcome=False):
         return ("other", type(e).__name__, str(e)[:200])
 
 
+def struct_text(text, struct):
+    """The specification text with every variable of `struct` read through its field: `x` -> `x.value`."""
+    import re
+    for v in struct:
+        text = re.sub(r"(?<![\w.])%s(?![\w.])" % re.escape(v), v + ".value", text)
+    return text
+
+
+def wrap(values, is_struct):
+    from .msgs import Msg
+    return [Msg(x) for x in values] if is_struct else list(values)
+
+
 def make_spec(kind, text, variables, semantics=None, io=None, consts=(), unit=None, sampling=None,
-              sub_specs=(), declare_out=True, extra_decl=()):
-    """kind: 'offd' | 'ond' | 'bothd' | 'offc' | 'onc'."""
+              sub_specs=(), declare_out=True, extra_decl=(), struct=()):
+    """kind: 'offd' | 'ond' | 'bothd' | 'offc' | 'onc'.  `struct`: variables declared with the user-defined type `Msg` (the text
+    has to read them as `x.value`, see `struct_text`)."""
     sem = semantics if semantics is not None else rtamt.Semantics.STANDARD
     if kind == "offd":
         spec = rtamt.StlDiscreteTimeOfflineSpecification() if semantics is None else rtamt.StlDiscreteTimeSpecification(semantics=sem)
@@ -68,8 +82,10 @@ def make_spec(kind, text, variables, semantics=None, io=None, consts=(), unit=No
         spec = rtamt.StlDenseTimeOnlineSpecification() if semantics is None else rtamt.StlDenseTimeSpecification(semantics=sem)
     else:
         raise HarnessError("unknown monitor kind " + kind)
+    if struct:
+        spec.import_module("harness.msgs", "Msg")
     for v in variables:
-        spec.declare_var(v, "float")
+        spec.declare_var(v, "Msg" if v in struct else "float")
     for v in extra_decl:
         spec.declare_var(v, "float")
     for (name, typ, val) in consts:
@@ -89,26 +105,31 @@ def make_spec(kind, text, variables, semantics=None, io=None, consts=(), unit=No
 
 def eval_offline_discrete(text, variables, data, n, time=None, limit=20.0, timeout_is_outcome=False, **kw):
     """Returns outcome with payload = list of [t, v] as returned by evaluate()."""
+    struct = kw.get("struct", ())
+
     def go():
-        spec = make_spec("offd", text, variables, **kw)
+        spec = make_spec("offd", struct_text(text, struct), variables, **kw)
         spec.parse()
         ds = {"time": list(time) if time is not None else list(range(n))}
         for v in data:
-            ds[v] = list(data[v])
+            ds[v] = wrap(data[v], v in struct)
         return spec.evaluate(ds)
     return guarded(go, limit, timeout_is_outcome)
 
 
 def run_online_discrete(text, variables, data, n, pastify=False, time=None, limit=20.0, timeout_is_outcome=False, **kw):
     """payload = list of update() return values, one per step."""
+    struct = kw.get("struct", ())
+
     def go():
-        spec = make_spec("ond", text, variables, **kw)
+        from .msgs import Msg
+        spec = make_spec("ond", struct_text(text, struct), variables, **kw)
         spec.parse()
         if pastify:
             spec.pastify()
         outs = []
         for i in range(n):
             t = time[i] if time is not None else i
-            outs.append(spec.update(t, [(v, data[v][i]) for v in data]))
+            outs.append(spec.update(t, [(v, Msg(data[v][i]) if v in struct else data[v][i]) for v in data]))
         return outs
     return guarded(go, limit, timeout_is_outcome)
